@@ -18,6 +18,11 @@ CLAIMED["C19"] = ("static: E-PANIC obligations over stdmath + constant-table agr
   "Trusts package math, go/types constant evaluation, the compiler's prove pass and the reviewed entries. Does not decide that parsing follows the documented precedence for every token sequence.",
   "DESIGN.md §3 C19")
 
+CLAIMED["C14"] = ("static panic-freedom and loop-progress obligations over the renderers (compiler prove pass + guard facts + reviewed table with mechanically re-checked guards), palette/bucket table agreement, clamp-dominates-quotient rule on Scaler.Scale, visible-width flow rule",
+  "Enumerates every construct that can panic or spin in pkg/multiterm/**, pkg/color, the render callbacks of every command and what they reach, and requires each to be discharged; checks that palette sizes agree with the bucket counts, that unit-interval consumers only receive Scale results, that Scale's quotient is returned only behind its clamps, that the bar-length division is guarded, and that width bookkeeping uses visible lengths. Necessary conditions of 'never crashes / terminates / indexes within bounds'; exhaustive over code paths, not over aggregated states.",
+  "Trusts the compiler's prove pass, the reviewed table (checker/c14.go), matcher index contracts and non-negative row/column limits. Does not decide proportionality, alignment, displayed = aggregated, '(n more)' counts.",
+  "DESIGN.md §3 C14")
+
 PENDING_REASON = "static check for this property is designed in DESIGN.md §3 but not yet built in this revision of /verif; not claimed until it runs"
 
 def main():
